@@ -32,7 +32,7 @@ def universe(rng):
     return base, inside, outside
 
 
-def hostile_reply(rng, base, inside, outside, bulk):
+def hostile_reply(rng, base, inside, outside, bulk, pad=False):
     n = rng.choice([0, 1, 1, 1, 2, 3, 5, 8]) if bulk else rng.choice([0, 1, 1, 1, 1, 1, 2])
     vbs = []
     for _ in range(n):
@@ -53,6 +53,12 @@ def hostile_reply(rng, base, inside, outside, bulk):
         else:
             v = [rng.choice(snmp.EXCEPTION_KINDS)]
         vbs.append([gen.oid_text(o), v])
+        if pad and len(o) > len(base) and rng.random() < 0.5:
+            # the same name with sub-identifiers written non-minimally (leading 0x80 octets, which
+            # X.690 8.19.2 forbids): below the base, so that a byte-wise subtree test still passes
+            head = ber.oid_content(o[: len(base)])
+            tail = b"".join((b"\x80" * rng.choice([0, 1, 1, 2])) + ber.arc_bytes(a) for a in o[len(base) :])
+            vbs[-1].append({"name_hex": (head + tail).hex()})
     if bulk and rng.random() < 0.3:
         vbs.sort(key=lambda x: ber.parse_oid_text(x[0]))  # make long increasing runs more likely
     return vbs
@@ -122,7 +128,7 @@ class C06(Prop):
         "(OID, value-or-exception) drawn from a small universe: in-subtree OIDs (incl. multi-octet arcs), repeated and decreasing ones, the base "
         "itself, out-of-subtree siblings/parents, NULL and the three exception values at any position, empty and long lists, Reports. oracle: "
         "yielded OIDs inside the subtree, strictly increasing, equal to the stepwise walk model (two readings where the statement is open), "
-        "follow-up requests ask for the last accepted OID, walk ends within the universe size. non-trivial = at least one hostile feature "
+        "follow-up requests ask for the last accepted OID, walk ends within the universe size. also: names with sub-identifiers beyond 32 bits or written with leading 0x80 octets, subtrees under 0.x / 1.x / 2.x with neighbours at 2.40 and beyond (there only the invariants containment / strictly increasing / termination are judged). non-trivial = at least one hostile feature "
         "(out-of-subtree, non-increasing, exception/NULL, empty reply) was consumed; distinct = abstract trace + reply shapes"
     )
     quick_runs = 40000
@@ -156,6 +162,7 @@ class C06(Prop):
         if family == "getbulk":
             op["max_rep"] = rng.choice([1, 3, 10])
         scripts = {}
+        pad = rng.random() < 0.1
         for k in range(1, 14):
             r = rng.random()
             if r < (0.15 if op.get("retry") else 0.03):
@@ -163,7 +170,7 @@ class C06(Prop):
             elif r < 0.06 and ver == "v3":
                 scripts["1:%d" % k] = {"replies": [{"k": "custom", "pdu": "report", "varbinds": []}]}
             else:
-                item = {"k": "custom", "pdu": "response", "varbinds": hostile_reply(rng, base, inside, outside, bulk)}
+                item = {"k": "custom", "pdu": "response", "varbinds": hostile_reply(rng, base, inside, outside, bulk, pad)}
                 if ver == "v1" and rng.random() < 0.2:
                     item["error_status"] = 2
                     item["error_index"] = 1
@@ -171,10 +178,10 @@ class C06(Prop):
         # a looping strategy: repeat the same reply forever
         default = None
         if rng.random() < 0.3:
-            default = {"k": "custom", "pdu": "response", "varbinds": hostile_reply(rng, base, inside, outside, bulk)}
+            default = {"k": "custom", "pdu": "response", "varbinds": hostile_reply(rng, base, inside, outside, bulk, pad)}
             for k in range(rng.randint(1, 6), LIMIT + 5):
                 scripts["1:%d" % k] = {"replies": [default]}
-        return {"flavour": flavour, "agent": agent, "sessions": [sess], "ops": [op], "scripts": scripts, "latency_ns": 1_000_001, "bulk": bulk}
+        return {"flavour": flavour, "agent": agent, "sessions": [sess], "ops": [op], "scripts": scripts, "latency_ns": 1_000_001, "bulk": bulk, "padded_names": pad}
 
     def check(self, run):
         out = []
@@ -220,6 +227,9 @@ class C06(Prop):
                 return out
         if len(exs) > 1:
             run.sim.count("probe.multi-request-walk")
+        if run.plan.get("padded_names"):
+            run.sim.count("probe.padded-subidentifiers")
+            return out
         if any(a >= 2**32 for r in replies if r[0] == "match" for o, _ in r[1].get("varbinds", []) for a in ber.parse_oid_text(o)):
             # a name that is not an SNMP OID: refusing it (SnmpDecodeError) and carrying on are both in order,
             # the invariants above (containment, strictly increasing, termination) are what the statement demands
